@@ -22,6 +22,7 @@ import (
 	"golang.org/x/tools/go/ssa"
 	"golang.org/x/tools/go/ssa/ssautil"
 
+	"gosx/peg"
 	"gosx/smt"
 )
 
@@ -96,6 +97,18 @@ var oncePkgs = []string{"unicode/utf8", "unicode", "strconv", "math", "math/bits
 // Load builds the SSA program of /repo with the harness overlay.
 func Load(repoDir string, overlayDirs map[string]string) (*Engine, error) {
 	t0 := time.Now()
+	// the grammar's own description, re-read from grammar.peg on every load (C20)
+	if gdir, ok := overlayDirs["grammar"]; ok {
+		gen := filepath.Join(gdir, "gen_pegspec.go")
+		os.Remove(gen)
+		if src, err := os.ReadFile(filepath.Join(repoDir, "grammar", "grammar.peg")); err == nil {
+			if g, perr := peg.Parse(string(src)); perr == nil {
+				os.WriteFile(gen, []byte(g.GoSource()), 0o644)
+			} else {
+				os.WriteFile(gen, []byte("package grammar\n\n// grammar.peg could not be read: "+strings.ReplaceAll(perr.Error(), "\n", " ")+"\nvar pegRules []*pegRule = nil\nvar pegReadError = "+fmt.Sprintf("%q", perr.Error())+"\n"), 0o644)
+			}
+		}
+	}
 	overlay := map[string][]byte{}
 	for sub, dir := range overlayDirs {
 		ents, err := os.ReadDir(dir)
